@@ -441,3 +441,58 @@ Proof. exact translated_owo_rendered_refuted. Qed.
 Theorem c16_rendered_owo_full_statement_false :
   ~ (forall s, owo_src_ok s -> ad_render_ok (ad_project AdOwo s) (owo_render (owo_value s) [120]) = true).
 Proof. exact owo_render_full_statement_false. Qed.
+(* ---- crossterm RENDERS the converted value as the tables say (tools/gen_fn_crossterm.py -> Generated/CrosstermFn.v) ----
+   The rendering code of the third-party crate crossterm (0.28.1, the version Cargo.lock pins; read from the cargo
+   registry copy that harness/h-adapters links) is TRANSLATED on every run: Display of StyledContent,
+   PrintStyledContent / SetForegroundColor / SetBackgroundColor / SetUnderlineColor / SetAttributes / SetAttribute /
+   ResetColor ::write_ansi, Display of Colored, Attribute::{sgr, bytes}, Attributes::{set, has, is_empty}.
+   [g_ct_of_tstyle t] reads the adapter's abstract target style (constructors / attributes by NAME) as the crossterm
+   value with those names (attributes through the translated `Attributes::set`); [g_crossterm_render v] is
+   `v.apply("x").to_string()` after `force_color_output(true)` (what harness/h-adapters runs); [ad_render_ok want bytes]
+   (Spec/Targets.v): Spec/Vt + Spec/Sgr show "x" in rendition `want`, colours compared modulo the identification of
+   palette entries 0-15 with the 16 ANSI colours (crossterm prints its named colours as 38;5;n).  [ct_src_u8]: indexed
+   and RGB values fit a u8. *)
+From AV Require Import Model.Crossterm Generated.CrosstermFn Proofs.CrosstermFnGen.
+
+(* for EVERY value of crossterm's ContentStyle (any colour variant, any attribute bit set) and every text: no panic,
+   and the bytes are SGR sequences (background, foreground, underline colour, one per attribute that is set in
+   declaration order), the text, and the reset sequences *)
+Theorem c16_rendered_crossterm_bytes : forall v text,
+  g_crossterm_render_str false v text = Some (ct_render_bytes v text).
+Proof. exact g_crossterm_render_str_eq. Qed.
+
+(* render (convert s) interprets to project(s): to_crossterm as translated, its result as a crossterm value, crossterm's
+   rendering as translated, interpreted from the terminal's default state *)
+Theorem c16_rendered_crossterm_is_projection : forall s, ad_src_ok s -> ct_src_u8 s ->
+  exists bytes, g_crossterm_pipeline s = Some bytes /\
+    ad_render_ok_but_underline (ad_project AdCrossterm s) bytes = true /\
+    (ad_one_underline (s_eff s) = true -> ad_render_ok (ad_project AdCrossterm s) bytes = true).
+Proof. exact crossterm_rendered_is_projection. Qed.
+
+(* the same against the meaning table: the library renders the adapter's value as Spec/Targets.v says it means *)
+Theorem c16_rendered_crossterm_is_meaning : forall s, ad_src_ok s -> ct_src_u8 s -> ad_one_underline (s_eff s) = true ->
+  exists t m bytes, g_to_crossterm s = Some t /\ ad_meaning AdCrossterm t = Some m /\
+    (v <- g_ct_of_tstyle t ;; g_crossterm_render v) = Some bytes /\ ad_render_ok m bytes = true.
+Proof. exact crossterm_rendered_is_meaning. Qed.
+
+(* the value-level form: what the adapter model builds, as a crossterm value, and its rendering *)
+Theorem c16_rendered_crossterm_image : forall s, ad_src_ok s -> ct_src_u8 s ->
+  exists v bytes,
+    g_ct_of_tstyle (ad_to_crossterm s) = Some v /\ g_crossterm_render v = Some bytes /\
+    ad_render_ok_but_underline (ad_project AdCrossterm s) bytes = true /\
+    (ad_one_underline (s_eff s) = true -> ad_render_ok (ad_project AdCrossterm s) bytes = true).
+Proof. exact crossterm_render_image. Qed.
+
+(* the hypothesis "at most one underline kind" cannot be dropped: UNDERLINE + DOUBLE_UNDERLINE renders as ESC[4m ESC[4:2m,
+   a terminal has one underline attribute and shows the double underline only *)
+Theorem c16_rendered_crossterm_two_underlines_refuted :
+  exists s bytes, ad_src_ok s /\ ct_src_u8 s /\ g_crossterm_pipeline s = Some bytes /\
+    ad_render_ok (ad_project AdCrossterm s) bytes = false.
+Proof. exact crossterm_rendered_two_underlines_refuted. Qed.
+
+(* outside what the harness runs: with colours switched off (NO_COLOR / force_color_output(false)) a colour command
+   still prints "ESC [ m", an SGR reset (red + bold: ESC[m ESC[1m x ESC[0m) *)
+Theorem c16_rendered_crossterm_colours_disabled :
+  g_crossterm_render_str true (mkCtStyle (Some CtRed) None None 4) [120] =
+  Some [27; 91; 109; 27; 91; 49; 109; 120; 27; 91; 48; 109].
+Proof. exact crossterm_colours_disabled_witness. Qed.
